@@ -136,6 +136,7 @@ package pool
 //@   modifies r.msg.Token, r.msg.Token[0 : cap(r.msg.Token)]
 //@   ensures [nil] token == nil ==> r.msg.Token == nil
 //@   ensures [len] len(r.msg.Token) == len(token)
+//@   ensures [bytes] distinctObjects(token, old(r.msg.Token)) ==> bytesEq(r.msg.Token, token)
 //
 // Assumed contracts (unverified here; decoding is C01/C02):
 //
@@ -159,9 +160,9 @@ package pool
 //@   requires r != nil
 //
 //@ func (*Message) Token() (t message.Token)
-//@   trusted
 //@   requires r != nil
-//@   ensures len(t) == len(r.msg.Token) && (len(t) > 0 ==> fresh(t))
+//@   ensures [copy] len(t) == len(r.msg.Token) && (len(t) > 0 ==> fresh(t)) && bytesEq(t, r.msg.Token)
+//@   ensures [nil-stays-nil] r.msg.Token == nil ==> t == nil
 //
 //@ func (*Message) ETag() (v []byte, err error)
 //@   trusted
@@ -195,10 +196,18 @@ package pool
 //@   trusted
 //@   requires r != nil
 //
+// Clone (what a retransmission sends is a Clone of the request, C06): the copy carries the same code,
+// type, message ID, a token of the same bytes and as many options; the body is copied through io
+// (assumed) and the source's read position is restored.
+//
 //@ func (*Message) Clone(msg *Message) (err error)
-//@   trusted
-//@   requires r != nil && msg != nil
-//@   modifies *msg
+//@   requires r != nil && msg != nil && msg != r
+//@   modifies msg.msg.Code, msg.isModified, msg.msg.Token, msg.msg.Token[0 : cap(msg.msg.Token)], msg.msg.Options, msg.msg.Options[0 : cap(msg.msg.Options)], msg.valueBuffer, msg.valueBuffer[0 : cap(msg.valueBuffer)], msg.msg.Type, msg.msg.MessageID, msg.controlMessage, msg.body
+//@   opaque-calls pure
+//@   ensures [header-copied] msg.msg.Code == old(r.msg.Code) && msg.msg.Type == old(r.msg.Type) && msg.msg.MessageID == old(r.msg.MessageID)
+//@   ensures [token-copied] len(msg.msg.Token) == old(len(r.msg.Token)) && (old(r.msg.Token) == nil ==> msg.msg.Token == nil)
+//@   ensures [options-copied] callCount(ResetOptionsTo) == 1 && callArg(ResetOptionsTo, 0, 0) == msg && callArg(ResetOptionsTo, 0, 1) == old(r.msg.Options)
+//@   ensures [source-header-untouched] r.msg.Code == old(r.msg.Code) && r.msg.Type == old(r.msg.Type) && r.msg.MessageID == old(r.msg.MessageID)
 //
 //@ func (*Message) UpsertType(typ message.Type)
 //@   trusted
